@@ -1,8 +1,13 @@
-HOOK_COMMITS = ["dee96d4", "bf7d115", "076d5ac"]
+HOOK_COMMITS = ["dee96d4", "bf7d115", "076d5ac", "5deb938"]
 
 NOT_APPLICABLE = {}
 
 META = {
+    "C13": {
+        "technique": "Lean 4 theorems (algebraic laws of the patch function: identity, frame, per-field determination, order-independence, replace) + differential correspondence + independent field-by-field Lean spec as oracle",
+        "text": "Kernel-checked laws of the modelled patch at any nesting depth and for every message: empty patch is the identity (C13_identity); fields unpopulated in the patch are unchanged (C13_frame); each populated field's result is determined by its own step alone (C13_field) hence independent of Range's enumeration order (C13_order_independent, all permutations); scalars overwrite, list elements append, PATCH_REPLACE makes dst's old value irrelevant (C13_scalar/C13_list/C13_replace/C13_replace_eq_from_empty). The model is tied to xproto.PatchMessage by a differential stream over generated schemas (all kinds, cardinalities, presence, PATCH_REPLACE placements, nesting) and an independently written field-by-field specification judges every implementation result.",
+        "note": "Trusted: Lean kernel; model as far as the stream checks it; protobuf-go reflection. Partial: aliasing/src-unchanged is a runtime check of the harness, not a theorem; load.Load's patch-file fold and DryRun are not yet modelled.",
+    },
     "C03": {
         "technique": "Lean 4 theorems (decision logic per kind over the whole string space) + differential correspondence + Lean oracle on the implementation's observations",
         "text": "Kernel-checked theorems over all integers and all strings: every in-range integer written canonically is stored exactly (C03_int32/uint32/int64/uint64_exact, all n), every out-of-range integer is rejected (…_overflow, all n: MIN-1, MAX+1 and beyond), any non-digit rune in a 64-bit cell is rejected (C03_garbage_*), the twelve bool spellings are accepted and every other whole-cell text rejected, blank cells are absent. The model of ParseFieldValue (integer families, bool) is tied to the code by an exhaustive/boundary/random differential stream; the property's must-accept/must-reject oracle (Lean) judges every implementation observation.",
